@@ -28,7 +28,7 @@ RULE = (
 ASSUMPTIONS = ["unix-domain sockets in one process keep the virtual clocks deterministic"]
 
 PHASES = ["fresh", "idle", "mid_head", "short", "long", "stuck", "h2_short", "h2_long", "ws",
-          "h2_two"]
+          "h2_two", "pipelined"]
 
 
 @st.composite
@@ -88,6 +88,8 @@ async def scenario(env: Any, case: Dict[str, Any]) -> Dict[str, Any]:
             c.send(req("/quick")[:10])
         elif phase in ("short", "long", "stuck"):
             c.send(req("/" + phase))
+        elif phase == "pipelined":  # a second request already waits behind the one in progress
+            c.send(req("/short") + req("/quick"))
         elif phase == "h2_two":
             client = info["client"]
             client.pump()
@@ -155,7 +157,8 @@ class _Adapter:
 
 def n_requests_before_trigger(case: Dict[str, Any]) -> int:
     return sum(2 if p == "h2_two" else 1 for p in case["conns"]
-               if p in ("idle", "short", "long", "stuck", "h2_short", "h2_long", "ws", "h2_two"))
+               if p in ("idle", "short", "long", "stuck", "h2_short", "h2_long", "ws", "h2_two",
+                        "pipelined"))
 
 
 def judge(case: Dict[str, Any], res: Any) -> None:
@@ -194,6 +197,11 @@ def judge(case: Dict[str, Any], res: Any) -> None:
             raise Violation("lifespan_shutdown_before_requests_finished", f"lifespan.shutdown at "
                             f"t={t_down}; {i.scope.get('path')} ran until t={fin}; trigger {t0}, "
                             f"graceful {g}", **tag)
+    for i in res.instances:
+        if i.scope.get("type") != "lifespan" and i.start_t > t0 + eps:
+            raise Violation("request_started_after_trigger", f"{i.scope.get('type')} "
+                            f"{i.scope.get('path')} started at t={i.start_t}, shutdown was "
+                            f"triggered at t={t0}", **tag)
     for info in val["conns"]:
         c, phase = info["c"], info["phase"]
         ptag = dict(tag, phase=phase)
@@ -207,8 +215,8 @@ def judge(case: Dict[str, Any], res: Any) -> None:
                 resps, _, err = parse_responses(c.received(), ["GET"], True)
                 if err or len(resps) != 1 or not resps[0].complete:
                     raise Violation("earlier_response_damaged", f"{err}", **ptag)
-        elif phase == "short":
-            resps, _, err = parse_responses(c.received(), ["GET"], c.server_gone)
+        elif phase in ("short", "pipelined"):
+            resps, _, err = parse_responses(c.received(), ["GET", "GET"], c.server_gone)
             if err or len(resps) != 1 or not resps[0].complete or resps[0].body != b"ok":
                 raise Violation("request_in_grace_period_not_delivered",
                                 f"{[r.to_json() for r in resps]} {err}", **ptag)
@@ -273,5 +281,5 @@ def run_case(case: Dict[str, Any]) -> CaseInfo:
 
 
 def parts() -> List[Part]:
-    return [Part("shutdown", run_case, strategy=case_strategy, quick=320, thorough=15000,
+    return [Part("shutdown", run_case, strategy=case_strategy, quick=1600, thorough=30000,
                  rule="connection phases x trigger source x timeouts")]
